@@ -576,6 +576,11 @@ impl AuthenticationProtocol  for Ntlm {
         let domain = self.get_domain_name();
         let user = self.get_user_name();
 
+        // Each field of the authenticate message is described by a length on 16 bits
+        if nt_challenge_response.len() > 0xffff || domain.len() > 0xffff || user.len() > 0xffff {
+            return Err(Error::RdpError(RdpError::new(RdpErrorKind::InvalidSize, "NTLM: target info, domain or user name too large for an authenticate message")))
+        }
+
         let auth_message_compute = authenticate_message(&lm_challenge_response, &nt_challenge_response, &domain, &user, b"", &encrypted_random_session_key, cast!(DataType::U32, result["NegotiateFlags"])?);
 
         // need to write a tmp message to compute MIC and then include it into final message
